@@ -353,3 +353,21 @@ pub fn is_special(f: F) -> bool {
     let v = f.v();
     v.is_nan() || v.is_infinite() || (v == 0.0 && f.0 != 0) || (v != 0.0 && v.abs() < f64::MIN_POSITIVE) || v <= NO_DATA * 0.999 || v.abs() >= 1e300
 }
+
+impl Geom {
+    /// Canonical form of a file-level record model: dimensions the type lacks are zero, and values the
+    /// file does not store (measures and M range when the block is absent) are zero too.
+    pub fn canon_file(self) -> Geom {
+        let mut g = self.canon();
+        if !g.m_present {
+            for p in g.parts.iter_mut() {
+                for v in p.pts.iter_mut() {
+                    v[3] = F(0);
+                }
+            }
+            g.bbox[6] = F(0);
+            g.bbox[7] = F(0);
+        }
+        g
+    }
+}
